@@ -37,6 +37,24 @@ import numpy as _np                                                   # noqa: E4
 _THE_NAN = float('nan')
 
 
+class Approx:
+    __slots__ = ('v',)
+
+    def __init__(self, v):
+        self.v = v
+
+    def __eq__(self, other):
+        return isinstance(other, Approx) and abs(self.v - other.v) <= 1
+
+    def __ne__(self, other):
+        return not self.__eq__(other)
+
+    __hash__ = None
+
+    def __repr__(self):
+        return 'Approx(%r)' % (self.v,)
+
+
 class _Plain:
     """an ordinary object: equality is identity"""
     __slots__ = ('tag',)
@@ -97,6 +115,18 @@ BOOMS = [Boom] + [_boom_class(b) for b in (AttributeError, KeyError, TypeError, 
 
 def boom_for(item_id, item):
     return BOOMS[item_id % len(BOOMS)](item)
+
+
+def _ndict_mut(a, i):
+    a['seen'].append(i)
+    a['n'] += 1
+    return a
+
+
+def _nlist_mut(a, i):
+    a[0].append(i)
+    a[1] += 1
+    return a
 
 
 class Box:
@@ -194,6 +224,9 @@ _FUNCS = {
     'acc_box_mut': lambda: _box_mut,
     'acc_tbox_mut': lambda: _tbox_mut,
     'acc_digest': lambda: (lambda a, i: (a * 7 + digest(i)) % 1009),
+    # in-place folds on seeds that are containers WITH a copy() method holding another container (a shallow copy shares it)
+    'acc_ndict_mut': lambda: _ndict_mut,
+    'acc_nlist_mut': lambda: _nlist_mut,
     # a state that compares element-wise: `state == marker` is an array, `bool(array)` raises for more than one element
     'acc_npvec': lambda: (lambda a, i: a + _np.array([i, 1], dtype='int64')),
     # an append on a list produced by a factory that is not a plain function (functools.partial / callable object / lru_cache)
@@ -213,6 +246,9 @@ _FUNCS = {
     'kf': lambda k: (lambda i: float(i % k)),
     'kmix': lambda k: (lambda i: float(i % k) if i % 2 else i % k),
     'kdig': lambda k: (lambda x: digest(x) % k),
+    # keys whose equality is NOT transitive (tolerance-based __eq__): 0 ~ 1 ~ 2 but 0 !~ 2.  'changed' means: != the key of the
+    # PREVIOUS item, which differs from '!= the key of the last item that was emitted'
+    'kapprox': lambda: (lambda i: Approx(i)),
     # keys that are identity-hashed objects
     'kobj': lambda k: (lambda i: _PLAIN_OBJECTS[i % min(k, len(_PLAIN_OBJECTS))]),
     # EQUAL items with different keys: (g, 1) == (g, 1.0) == (g, True) - same hash too - keyed by the type of the second field
@@ -254,6 +290,7 @@ _SEEDS = {
     'box': lambda: Box(), 'tbox': lambda: (Box(), 0),      # hashable but mutable user objects
     'nested': lambda: ([], 0),          # an immutable container holding a mutable one: needs a DEEP copy per key
     'npvec': lambda: _np.zeros(2, dtype='int64'),
+    'ndict': lambda: {'n': 0, 'seen': []}, 'nlist': lambda: [[], 0],
     # seed FACTORIES that are callable without being functions or classes
     'list_partial': lambda: functools.partial(list, ()),
     'list_callable_object': lambda: _ListFactory(),
@@ -431,7 +468,7 @@ FUNC_SIG = {
 }
 SEED_TYPE = {'zero': 'i', 'zerof': 'f', 'list': 'x', 'list_factory': 'x', 'dict_factory': 'x', 'pair00': 't',
              'neg1': 'i', 'arr_factory': 'x', 'one': 'i', 'nested': 'x', 'box': 'x', 'tbox': 'x', 'npvec': 'x',
-             'list_partial': 'x', 'list_callable_object': 'x', 'list_lru': 'x'}
+             'list_partial': 'x', 'list_callable_object': 'x', 'list_lru': 'x', 'ndict': 'x', 'nlist': 'x'}
 
 
 def out_type(node, t):
@@ -452,7 +489,7 @@ def out_type(node, t):
     return o
 
 
-INT_FUNCS = {'kobj', 'sub', 'tonp', 'knp', 'modnp', 'divnp', 'divnpf', 'npgt', 'kcent', 'divcent', 'divbool', 'divnone', 'divnan', 'divobj', 'divobjt', 'add', 'mul', 'mod', 'div', 'neg', 'pair', 'pairmod', 'rep', 'upto', 'opt', 'half', 'tofloat', 'nt', 'even', 'odd',
+INT_FUNCS = {'kapprox', 'kobj', 'sub', 'tonp', 'knp', 'modnp', 'divnp', 'divnpf', 'npgt', 'kcent', 'divcent', 'divbool', 'divnone', 'divnan', 'divobj', 'divobjt', 'add', 'mul', 'mod', 'div', 'neg', 'pair', 'pairmod', 'rep', 'upto', 'opt', 'half', 'tofloat', 'nt', 'even', 'odd',
              'modeq', 'modne', 'modtruthy', 'kt', 'ks', 'kbig', 'kf', 'kmix', 'kneg', 'kmers', 'ktneg', 'divt', 'divs', 'divbig', 'divhuge', 'divf', 'divpar'}
 NUM_FUNCS = {'gt', 'lt', 'trunc', 'scale10'}
 ANY_FUNCS = {'id', 'digest', 'dgt', 'true', 'false', 'kdig', 'digpar', 'ktype'}
